@@ -438,11 +438,12 @@ class World:
         kill = cfg.get("kill")
 
         so, se = Sink(), Sink()
-        old = (sys.stdout, sys.stderr, sys.argv, builtins.open)
+        old = (sys.stdout, sys.stderr, sys.argv, builtins.open, io.open)
         sys.stdout, sys.stderr = so, se
         if cfg.get("argv") is not None:
             sys.argv = list(cfg["argv"])
         builtins.open = fs.open
+        io.open = fs.open           # pathlib and friends resolve io.open at call time
         _time.time = clk.time
         _time.monotonic = clk.time
         _time.perf_counter = clk.time
@@ -504,6 +505,7 @@ class World:
                 gc.collect()
             fs.end_op(process_ends=bool(cfg.get("process_ends")))
             builtins.open = old[3]
+            io.open = old[4]
             sys.stdout, sys.stderr, sys.argv = old[0], old[1], old[2]
             for k, v in _REAL_TIME.items():
                 setattr(_time, k, v)
